@@ -620,8 +620,12 @@ func (ft *FT) calleeCtx(callee *ssa.Function, closure *ssa.MakeClosure, c *ssa.C
 		vars[fmt.Sprintf("arg%d", k)] = vars[n]
 		// pointee(argK): the object behind a pointer that this call site passes as an interface value
 		// (json.Unmarshal(data, &v) and the like); known only where the argument is a boxed pointer
-		if k < len(c.Args) && !c.IsInvoke() && sig.Recv() == nil {
-			if mi, ok := c.Args[k].(*ssa.MakeInterface); ok {
+		ai := k // index of this parameter in c.Args: a static method call carries its receiver as c.Args[0]
+		if !c.IsInvoke() && sig.Recv() != nil {
+			ai = k + 1
+		}
+		if ai < len(c.Args) {
+			if mi, ok := c.Args[ai].(*ssa.MakeInterface); ok {
 				if _, isPtr := mi.X.Type().Underlying().(*types.Pointer); isPtr && ft.env[mi.X] != nil {
 					pv := SpecVal{T: ft.val(mi.X), Typ: mi.X.Type(), Sort: ft.d.sortOf(mi.X.Type())}
 					vars["pointee!"+n] = pv
